@@ -79,17 +79,20 @@ def arrays(atoms):
             np.array([[x / UNIT for x in a["p"]] for a in atoms], dtype=float).reshape(-1, 3))
 
 
-def describe(rec, cfg):
+def describe(rec, cfg, sht=None):
+    """`sht`: the transform object to use; callers of the library keep one SHT for many descriptions (the Crystal
+    methods do), so within a trace the same object serves every pose."""
     from chmpy.shape import SHT, promolecule_density_descriptor, stockholder_weight_descriptor
     from chmpy import Molecule
     ch = None if rec["channel"] == "none" else rec["channel"]
     els, pos = arrays(cfg["inner"])
+    sht = sht if sht is not None else SHT(rec["lmax"])
     if rec["kind"] == "promolecule":
-        return promolecule_density_descriptor(SHT(rec["lmax"]), els, pos, with_property=ch)
+        return promolecule_density_descriptor(sht, els, pos, with_property=ch)
     if rec["kind"] == "molecule":
         return Molecule.from_arrays(els, pos).shape_descriptors(l_max=rec["lmax"], with_property=ch)
     ne, pe = arrays(cfg["outer"])
-    return stockholder_weight_descriptor(SHT(rec["lmax"]), els, pos, ne, pe, with_property=ch, bounds=tuple(rec["bounds"]))
+    return stockholder_weight_descriptor(sht, els, pos, ne, pe, with_property=ch, bounds=tuple(rec["bounds"]))
 
 
 def radial_samples(rec, cfg, nsamp=24):
@@ -132,11 +135,13 @@ def drive(rec):
          "meta": {"recipe": rec, "source": rec.get("src", "tlc-words"), "nontrivial": True,
                   "impl_call": "%s descriptor l_max=%d channel=%s, %d poses" % (rec["kind"], rec["lmax"], rec["channel"], len(rec["words"]) + 1)}}
     ref = None
+    from chmpy.shape import SHT as _SHT
+    shared = _SHT(rec["lmax"]) if rec.get("share_sht", True) else None
     for w in [[]] + rec["words"]:
         cfg = apply_word(base, w)
         ps = {"word": w, "inner": cfg["inner"], "outer": cfg["outer"], "exc": "", "d": []}
         try:
-            d = np.asarray(describe(rec, cfg), dtype=float)
+            d = np.asarray(describe(rec, cfg, shared), dtype=float)
             if ref is None:
                 ref = float(np.max(np.abs(d)))
             ps["d"] = [int(round(float(x) / ref * 1048576)) if abs(x) / ref < 1000 else 2 ** 30 for x in d]
@@ -165,11 +170,12 @@ def drive(rec):
                 pr = {"flo": int(round(min(vals[0], 1000.0) * 1048576)), "fmid": int(round(min(vals[1], 1000.0) * 1048576)),
                       "fhi": int(round(min(vals[2], 1000.0) * 1048576)), "exc": ""}
                 try:
+                    chp = None if rec["channel"] == "none" else rec["channel"]
                     if rec["kind"] == "stockholder":
                         ne, pe = arrays(base["outer"])
-                        stockholder_weight_descriptor(SHT(rec["lmax"]), els, pos, ne, pe, bounds=(lo, hi))
+                        stockholder_weight_descriptor(SHT(rec["lmax"]), els, pos, ne, pe, bounds=(lo, hi), with_property=chp)
                     else:
-                        promolecule_density_descriptor(SHT(rec["lmax"]), els, pos, bounds=(lo, hi))
+                        promolecule_density_descriptor(SHT(rec["lmax"]), els, pos, bounds=(lo, hi), with_property=chp)
                 except Exception as e:
                     pr["exc"] = type(e).__name__
                 t["oob"].append(pr)
